@@ -291,8 +291,9 @@ pub fn field_payloads(b: &[u8], num: u32) -> Vec<(u8, u64, Vec<u8>, usize, usize
         let wt = (key & 7) as u8;
         let (val, bytes, off, len) = match wt {
             0 => {
+                let o = pos;
                 let Some(v) = varint(b, &mut pos) else { break };
-                (v, vec![], 0, 0)
+                (v, vec![], o, pos - o)
             }
             1 => {
                 if pos + 8 > b.len() { break }
